@@ -694,6 +694,19 @@ func (e *Exec) resultCandidates(s *State, rt types.Type, prefix string, args []V
 		fr := s.alloc(e.havocByType(s, u.Elem(), prefix+".val"))
 		cands = append(cands, fr)
 		return cands
+	case *types.Interface:
+		for _, sc := range con.clauses("shape") {
+			eq := strings.Index(sc.Raw, "=")
+			if eq >= 0 && strings.TrimSpace(sc.Raw[:eq]) == fmt.Sprintf("result%d", k) && strings.TrimSpace(sc.Raw[eq+1:]) == "anystring" {
+				var parts []string
+				for _, a := range args {
+					if r, ok := a.(Ref); ok && !r.isNil() {
+						parts = append(parts, fmt.Sprintf("#%d", r.Cell))
+					}
+				}
+				return []Val{Iface{Dyn: types.Typ[types.String], V: atom(sanitize(con.target()) + "(" + strings.Join(parts, ",") + ")")}}
+			}
+		}
 	}
 	unsupported("result of type %s needs a result shape", rt)
 	return nil
